@@ -28,6 +28,7 @@ def poly_terms(be, H):
 
 class C18(Prop):
     id = "C18"
+    refusal_family = "diag"
     trace_module = "TraceC18"
     trace_cfg = "TraceC18.cfg"
     backends = ("py", "torch")
@@ -48,6 +49,7 @@ class C18(Prop):
                        expect_distinct=(24 if n == 1 else 11520))
             self.maps[n] = [m for m, _ in read_maps(pf)]
         self.big = []
+        self.groups = []      # (n, [signed elements of a stabilizer group incl. the identity]) -- computed by TLC
         nb = 60 if self.tier == "thorough" else 12
         for n in (2, 3, 4):
             r = self.model("MC_RotSim", "MC_RotSim_n%d.cfg" % n if n > 2 else "MC_RotSim_n3.cfg", name="rotsim_n%d" % n, workers=1,
@@ -55,6 +57,8 @@ class C18(Prop):
             for e in r.printed:
                 if e[0] == "S" and e[1] in (4, 8):
                     self.big.append((len(e[3]) // 2, e[3]))
+                    if e[5]:
+                        self.groups.append((len(e[3]) // 2, [img for _z, img in e[5]]))
 
     def scenarios(self):
         thorough = self.tier == "thorough"
@@ -104,6 +108,19 @@ class C18(Prop):
             # (coefficients are +-2^-a so that the perturbative step, which divides by the leading coefficient, stays dyadic)
             terms = [[[rng.randrange(4) for _ in range(n)] + [0], rng.choice((1, -1)), 0, a] for a in range(rng.randrange(2, 6))]
             yield {"k": "sbrg", "n": n, "terms": terms, "pkg": "py", "commuting": False}
+        # commuting Hamiltonians made of arbitrary elements of one stabilizer group (products of generators, the
+        # identity = a constant energy offset), every term in turn carrying the largest coefficient
+        for j, (n, els) in enumerate(self.groups):
+            ident = [w for w in els if not any(w[:-1])]
+            rest = [w for w in els if any(w[:-1])]
+            sub = rng.sample(rest, min(len(rest), rng.randrange(2, 6))) + (ident if j % 3 != 2 else [])
+            for lead in range(len(sub)):
+                if lead > 1 and (j + lead) % 3:
+                    continue
+                order = sub[lead:] + sub[:lead]
+                terms = [[w[:-1] + [rng.choice((0, 2))], rng.choice((1, -1, 3)), 0, 0 if a == 0 else 2 + a] for a, w in enumerate(order)]
+                rng.shuffle(terms)
+                yield {"k": "sbrg", "n": n, "terms": terms, "pkg": "py", "commuting": True}
 
     def execute(self, scn, be):
         k = scn["k"]
